@@ -1527,6 +1527,8 @@ class C16(ProverCheck):
         tr = PV.run_plan(plan)
         ok = tr.outcome == "completed"
         sc = plan["body"][0]["schema"]
+        if plan["body"][0].get("first") is not None:
+            faults["refused_first"] = 1
 
         def leaves(v, out):
             if isinstance(v, list):
@@ -3382,6 +3384,12 @@ class C09(TraceCheck):
         res["digest"] = E.sha((res["digest"], sorted(n_vals.items()), n_out))
         res["faults"] = {"guard0": int(bool(tr.probes.get("step_under_false_block_guard"))),
                          "guard1": int(bool(tr.probes.get("step_in_block_region")))}
+        if plan["body"] and plan["body"][0]["s"] == "retry_while":
+            # runs of the loop that were abandoned by an exception the program caught
+            res["faults"]["abandoned_run"] = len(tr.caught)
+            probes["retry_while_history"] = 1
+            if tr.outcome == "completed" and n_out == "completed":
+                res["nontrivial"] = P.plan_digest(plan)
         res["sigs"] = [E.sha((s["s"], s.get("elifs") and len(s["elifs"]), s.get("else") is not None,
                               s.get("breakif") is not None, s.get("max"), s.get("checkstopmax"),
                               bool(tr.probes.get("step_under_false_block_guard"))))
